@@ -370,18 +370,47 @@ fn c16_state<T: Flt>(acc: &mut Acc, cfg: &Cfg, h: &[Op]) -> Result<(), String> {
     // (2) partial Some(x) == zero padded / truncated chunk, (3) None == zero chunk, (4) process_partial
     let mut lens: Vec<Option<usize>> = vec![None];
     if next <= 64 {
-        lens.extend((1..next).map(Some));
+        lens.extend((0..next).map(Some));
     } else {
-        lens.extend([1, next / 2, next - 1].into_iter().map(Some));
+        lens.extend([0, 1, next / 2, next - 1].into_iter().map(Some));
     }
     lens.push(Some(next));
     lens.push(Some(next + 3));
+    // shape of the partial input: 0 = all channels `len` frames; 1 = inactive channels supplied
+    // empty (as the crate's own tests supply masked channels); 2 = ragged, channel c has
+    // len - c frames (each channel is zero padded on its own)
+    let mut cases: Vec<(Option<usize>, Option<Vec<bool>>, u8)> = Vec::new();
     for len in lens {
-        for mask in [None, Some((0..n).map(|c| c % 2 == 0).collect::<Vec<bool>>())] {
+        for mask in [None, Some((0..n).map(|c| c % 2 == 0).collect::<Vec<bool>>()), Some((0..n).map(|c| c % 2 == 1).collect::<Vec<bool>>())] {
+            if n == 1 && mask.as_ref().map(|m| !m[0]).unwrap_or(false) {
+                continue;
+            }
+            cases.push((len, mask.clone(), 0));
+            if len.is_some() && mask.is_some() {
+                cases.push((len, mask.clone(), 1));
+            }
+            if len.map(|l| l >= 1).unwrap_or(false) && n > 1 {
+                cases.push((len, mask.clone(), 2));
+            }
+        }
+    }
+    for (len, mask, shape) in cases {
+        {
             let mut a = mat::<T>(cfg, h)?;
             let mut b = mat::<T>(cfg, h)?;
             let mut c = mat::<T>(cfg, h)?;
-            let x: Option<Vec<Vec<T>>> = len.map(|l| input_for(&a, l));
+            let x: Option<Vec<Vec<T>>> = len.map(|l| {
+                let mut x = input_for(&a, l);
+                for (ch, v) in x.iter_mut().enumerate() {
+                    let active = mask.as_ref().map(|m| m[ch]).unwrap_or(true);
+                    match shape {
+                        1 if !active => v.clear(),
+                        2 => v.truncate(l.saturating_sub(ch)),
+                        _ => {}
+                    }
+                }
+                x
+            });
             let mut padded: Vec<Vec<T>> = match &x {
                 Some(x) => x.iter().map(|ch| { let mut v = ch.clone(); v.resize(next, T::from64(0.0)); v.truncate(next); v }).collect(),
                 None => vec![vec![T::from64(0.0); next]; n],
@@ -398,7 +427,7 @@ fn c16_state<T: Flt>(acc: &mut Acc, cfg: &Cfg, h: &[Op]) -> Result<(), String> {
             acc.evals += 1;
             let what = match len {
                 None => "None".to_string(),
-                Some(l) => format!("Some({} of {} frames)", l, next),
+                Some(l) => format!("Some({} of {} frames{})", l, next, match shape { 1 => ", inactive channels empty", 2 => ", channel c has c frames less", _ => "" }),
             };
             match (&ra, &rb) {
                 (Ok((ia, oa)), Ok((ib, ob))) => {
